@@ -220,6 +220,7 @@ def run_case(ctx, case):
 
     # ---- (c) preserve ---------------------------------------------------------------------------
     geo = [axis_geo(blk) for blk in blocks]
+    nontrivial = False
     feats = set()
     flipped_chain = False
     for r, members in fam.items():
@@ -294,8 +295,8 @@ def run_case(ctx, case):
                                           f"family of block {b0} axis {a0} {kw} (target {target}): block {b} axis {a} wire {k} "
                                           f"(length {lens[(b,a,k)]:.6f}) has {val} at the geometrically same end")
                             return
-        nb, nface, nedge, nvert = lattice.contact_summary(case)
-        nontrivial = distinct_lengths and (anti_seen or any(f[0] != "c2c_expansion" for f in feats) or any(f[2] > 1 for f in feats))
+        if distinct_lengths and (anti_seen or any(f[0] != "c2c_expansion" for f in feats) or any(f[2] > 1 for f in feats)):
+            nontrivial = True
     if case.get("arcs"):
         ctx.count("judged:assembly-with-arc-edges")
     ctx.key([lattice.contact_summary(case), sorted(feats), anti_seen, flipped_chain, bool(case.get("arcs"))], nontrivial=nontrivial)
